@@ -161,7 +161,7 @@ namespace AIToolbox::MDP {
         for ( unsigned i = 0; i < N; ++i ) {
             // O(1) sampling...
             const auto [s,a] = visitedStatesActionsSampler_[sampleDistribution_(rand_)];
-            const auto [s1, rew] = model_.sample(s, a);
+            const auto [s1, rew] = model_.sampleSR(s, a);
 
             qLearning_.stepUpdateQ(s, a, s1, rew);
         }
